@@ -76,6 +76,31 @@ theorem retention_safe (files0 : List Nat) (as : List Act) (s : Sys) (obs : List
   · intro cur hc
     exact ⟨hi.compWr cur (getLast?_mem hc), hi.curMax cur hc⟩
 
+/-- The storage part of `retention_safe` for BOTH job configurations (started without a savepoint URI, or configured
+with the savepoint of checkpoint `k`, which re-enters the savepoint path at every crash): the newest persisted snapshot
+file is present and no started `Remove` names it; every persisted id is at most the id counter. Only which checkpoint is
+*current* after a restart differs for savepoint-configured jobs (D64). -/
+theorem newest_file_kept_any_config (s0 : Sys)
+    (h0 : (∃ files0, s0 = init files0) ∨ (∃ k files0, s0 = initSavepoint k files0))
+    (as : List Act) (s : Sys) (obs : List Obs) (h : run s0 as = some (s, obs)) :
+    (s.pub.written ≠ [] → maxL s.pub.written ∈ s.pub.files) ∧
+    (∀ R ∈ s.pub.removes, maxL s.pub.written ∉ R) ∧
+    (∀ w ∈ s.pub.written, w ≤ s.store.cid) := by
+  have hc0 : InvCore s0 := by
+    rcases h0 with ⟨f, rfl⟩ | ⟨k, f, rfl⟩
+    · exact (inv_init f).core
+    · exact core_initSavepoint k f
+  have hi := run_core as hc0 h
+  refine ⟨?_, ?_, hi.wrCid⟩
+  · intro hw
+    have hf := hi.files_ne hw
+    rw [← hi.maxFiles_eq hf]; exact maxL_mem hf
+  · intro R hR hm
+    have hlt := hi.remLt R hR _ hm
+    have hf : s.pub.files ≠ [] := by intro he; rw [he] at hlt; simp [maxL] at hlt
+    rw [hi.maxFiles_eq hf] at hlt
+    exact Nat.lt_irrefl _ hlt
+
 /-- A retained-ids notification names exactly the checkpoint that becomes current, and that checkpoint is
 newer than everything published before: an older checkpoint is never named as the only one to keep. -/
 theorem notify_names_newest (s s' : Sys) (n : Nat) (obsolete : List Nat)
@@ -157,15 +182,23 @@ it, although checkpoint 1 was complete; with the atomic write the storage holds 
 theorem truncatedNewest_counterexample :
     loadOldWrite [(1, true), (2, false)] = none ∧ load [1] = some 1 := by decide
 
-/-- The savepoint start mode (`LoadCheckpoint` with a savepoint URI; the job keeps the URI, so every restart of
-such a job takes this path) does NOT resume from the newest completed checkpoint: with the files of checkpoint 3
-in storage it makes savepoint 1 the current checkpoint. All theorems of this file are about jobs started without
-a savepoint URI (`init`/`crash` use the plain `boot`); the code's own comment calls the override provisional. -/
+/- FULL STATEMENT (false on the code, D64): "whenever the job (re)starts it recovers from the completed checkpoint
+with the highest id present in its storage" — for every job. `crash_recovers_newest_partial` and
+`current_never_regresses_partial` prove it for jobs configured WITHOUT a savepoint URI (`init`; `Sys.savepoint = none`
+is an invariant of such runs). A job configured with a savepoint URI keeps the URI, and every restart takes the
+savepoint path of `LoadCheckpoint` again: -/
+/-- D64 (open): the job is started from the savepoint of checkpoint 1, publishes checkpoints 2 and 3, and crashes:
+the restart loads savepoint 1 again although the complete checkpoint 3 is in its storage (all progress since the
+savepoint is discarded; the id counter continues after 3). The code's own comment calls the override provisional. -/
 theorem savepoint_restart_goes_back_counterexample :
-    (bootSavepoint 1 [3] [3, 2, 1] []).pub.current = some 1 ∧ load [3] = some 3 := by decide
+    (run (initSavepoint 1 [1])
+      [.call (.create [1] [1]), .call (.opAck 1 2 0), .call (.srAck 1 2 []), .write 2, .lock 2,
+       .call (.create [1] [1]), .call (.opAck 1 3 0), .call (.srAck 1 3 []), .write 3, .lock 3, .remove [1], .remove [2],
+       .crash]).map (fun r => (r.1.pub.files, r.1.pub.current, r.1.store.cid, r.2.getLast?.map (fun o => match o with | .loaded x => x | _ => none)))
+    = some ([3], some 1, 3, some (some 1)) ∧ load [3] = some 3 := by decide
 
 /-- the current checkpoint never goes back, whatever step comes next (late publications, crash) -/
-theorem current_never_regresses (files0 : List Nat) (as : List Act) (s : Sys) (obs : List Obs)
+theorem current_never_regresses_partial (files0 : List Nat) (as : List Act) (s : Sys) (obs : List Obs)
     (h : run (init files0) as = some (s, obs)) (a : Act) (s' : Sys) (obs' : List Obs)
     (hs : step s a = some (s', obs')) (cur : Nat) (hc : s.pub.current = some cur) :
     ∃ cur', s'.pub.current = some cur' ∧ cur ≤ cur' := by
@@ -215,7 +248,7 @@ theorem current_never_regresses (files0 : List Nat) (as : List Act) (s : Sys) (o
           exact ⟨cur, rfl, Nat.le_refl _⟩
     · exact absurd hs (by simp)
   | crash =>
-    simp only [step, Option.some.injEq, Prod.mk.injEq] at hs
+    simp only [step, hi.noSp, Option.some.injEq, Prod.mk.injEq] at hs
     rw [← hs.1]
     have hw := hi.compWr cur (getLast?_mem hc)
     have hne : s.pub.files ≠ [] := hi.files_ne (by intro he; rw [he] at hw; simp at hw)
@@ -224,14 +257,14 @@ theorem current_never_regresses (files0 : List Nat) (as : List Act) (s : Sys) (o
 
 /-- A crash after any step recovers the newest checkpoint whose write completed: `LoadCheckpoint` on what is
 in storage returns the highest id ever persisted, it becomes the current checkpoint and the id counter. -/
-theorem crash_recovers_newest (files0 : List Nat) (as : List Act) (s : Sys) (obs : List Obs)
+theorem crash_recovers_newest_partial (files0 : List Nat) (as : List Act) (s : Sys) (obs : List Obs)
     (h : run (init files0) as = some (s, obs)) :
     ∃ s', step s .crash = some (s', [.loaded (if s.pub.written = [] then none else some (maxL s.pub.written))]) ∧
       s'.pub.current = (if s.pub.written = [] then none else some (maxL s.pub.written)) ∧
       s'.store.cid = maxL s.pub.written ∧ s'.store.pending = none ∧ s'.pub.files = s.pub.files := by
   have hi := run_inv as (inv_init files0) h
   refine ⟨boot s.pub.files s.pub.written s.pub.delivered s.pub.initial s.pub.finished s.pub.fifo, ?_, ?_, ?_, rfl, rfl⟩
-  · simp only [step]
+  · simp only [step, hi.noSp]
     by_cases hw : s.pub.written = []
     · have hf : s.pub.files = [] := by
         cases hfl : s.pub.files with
